@@ -486,11 +486,11 @@ def c03(ctx):
 @check("C06")
 def c06(ctx):
     th = ctx.thorough
-    faults = ("none", "auditWrite", "auditSync", "save")
+    faults = ("none", "auditWrite", "auditSync", "save", "latched")
     cfg = vault_cfg(["A", "B"] if th else ["A"], ["x", "E"], 2, mode="few", faults=faults, reopen=True)
     wd, run, ns, ne = vault_graph(ctx, "c06", cfg, workers=8)
     t1, s1 = vault_walk(ctx, wd, "c06-db", shards=16 if th else 4, env={"VERIF_PROBE_EVERY": 8})
-    cfg2 = vault_cfg(["A"], ["x", "E"], 2, mode="few", faults=("none", "auditWrite", "auditSync"), reopen=True)
+    cfg2 = vault_cfg(["A"], ["x", "E"], 2, mode="few", faults=("none", "auditWrite", "auditSync", "latched"), reopen=True)
     wd2, run2, ns2, ne2 = vault_graph(ctx, "c06h", cfg2, workers=8)
     t2, s2 = vault_walk(ctx, wd2, "c06-http", shards=4, env={"VERIF_PROBE_EVERY": 8, "VERIF_MODE": "http"})
     r1, v1 = vault_random(ctx, "db", 1200 if th else 120, 50, parts=16 if th else 8)
@@ -504,7 +504,7 @@ def c06(ctx):
            "explanation": "graph with an audit sink failing at the write or at the sync of any record and a save failing, for authorized and "
                           "unauthorized callers: per call the records written (principal, action, secret, version, authorized; one complete "
                           "synced JSON line; database file still untouched when the record is written) must equal the specification's; a failed "
-                          "record means error, no payload, no change, and -- as the code behaves -- every later call failing closed until restart. "
+                          "record means error, no payload, no change; whether later calls then keep failing closed (the pinned writer latches its first error) or work again is left to the implementation, and the walk follows whichever the real code does. "
                           "Concurrent callers append to a real audit.NewFile file; every line must parse and the per-principal record sequence "
                           "must equal what the TLC-validated history prescribes."}
     return "model_checking", cov, ["the audit sink is an io.Writer with Sync owned by the harness; the concurrent part uses a real file"]
